@@ -479,3 +479,114 @@ def format_parts(e):
             else:
                 return None
     return pieces, args
+
+
+ELEM = ("elem",)
+
+
+def replace(e, pred, new):
+    """e with every subexpression satisfying pred replaced by new"""
+    memo = {}
+    _alive = []
+
+    def go(x):
+        if not isinstance(x, tuple):
+            return x
+        k = id(x)
+        if k in memo:
+            return memo[k]
+        if x and isinstance(x[0], str) and pred(x):
+            r = new
+        else:
+            r = tuple(go(y) for y in x)
+        memo[k] = r
+        _alive.append(x)
+        return r
+
+    return go(e)
+
+
+def loop_built_vec(prog, path, e):
+    """`let mut v = Vec::new() | Vec::with_capacity(..); for x in SRC { v.push(f(x)); }`: returns (SRC, f(ELEM)) when the
+    vector `e` of body `path` is built like that -- one push, executed for every item of one un-adapted iteration, and
+    nothing else ever stored -- else None.  The closure spelling `SRC.iter().map(f).collect()` says the same."""
+    from .common import guards
+    v = strip(e)
+    alts = [strip(x) for x in v[1]] if v[0] == "phi" else [v]
+    pushes = []
+    for x in alts:
+        if x[0] == "call" and re.search(r"Vec::<T>::(new|with_capacity)$", x[1]):
+            continue
+        if x[0] == "mutated_by" and re.search(r"Vec::<T, A>::push$", x[1]) and len(x[2]) == 2:
+            pushes.append(x)
+            continue
+        return None
+    if len(pushes) != 1 or len(alts) < 2:
+        return None
+    val = strip(pushes[0][2][1])
+    is_next = lambda z: z[0] == "call" and z[1].endswith("Iterator>::next")
+    items = []
+    mentions(val, lambda z: z[0] == "field" and tuple(z[2][:2]) == ("@Some", "0") and is_next(strip(z[1])) and items.append(z) and False)
+    if not items or any(strip(i[1]) != strip(items[0][1]) for i in items):
+        return None
+    nxt = strip(items[0][1])
+    it = strip(nxt[2][0])
+    # the iterator: phi(into_iter(X) | mut:next(self) ...)
+    srcs = [strip(a) for a in (it[1] if it[0] == "phi" else [it])]
+    flat = []
+    while srcs:
+        a = srcs.pop()
+        if a[0] == "phi":
+            srcs.extend(strip(y) for y in a[1])
+        elif a[0] == "mutated_by" and is_next(("call", a[1])):
+            continue
+        else:
+            flat.append(a)
+    if len(flat) != 1 or flat[0][0] != "call" or not flat[0][1].endswith("IntoIterator>::into_iter"):
+        return None
+    src = strip(flat[0][2][0])
+    while src[0] == "call" and re.search(r"<impl \[T\]>::iter$|Deref>::deref$|::as_slice$|Vec::<T, A>::iter$", src[1]) and src[2]:
+        src = strip(src[2][0])
+    # the push is executed exactly once per item: directly control dependent on the loop header only
+    bid = pushes[0][3] if len(pushes[0]) > 3 else None
+    if bid is None:
+        return None
+    gs = guards(prog, path, bid, direct=True)
+    if len(gs) != 1 or gs[0][1] != 1:
+        return None
+    g = strip(gs[0][0])
+    if not (g[0] == "discr" and strip(g[1]) == nxt):
+        return None
+    # the whole item is ELEM; deeper projections (`x.0`) stay projections of ELEM
+    elem = replace(val, lambda z: z[0] == "field" and tuple(z[2][:2]) == ("@Some", "0") and is_next(strip(z[1])) and len(z[2]) == 2, ELEM)
+    def _deeper(z):
+        return z[0] == "field" and tuple(z[2][:2]) == ("@Some", "0") and is_next(strip(z[1])) and len(z[2]) > 2
+    found = []
+    mentions(elem, lambda z: _deeper(z) and found.append(z) and False)
+    for z in found:
+        elem = replace(elem, lambda y, z=z: y == z, ("field", ELEM, tuple(z[2][2:])))
+    if mentions(elem, is_next):
+        return None
+    return src, elem
+
+
+def inline_top(prog, e, crate="svgbob", rounds=3, keep=None):
+    """e, with a top-level call of a crate-local single-expression function replaced by that expression (arguments
+    substituted): `self.with_line(l)` -> `MarkerLine { line: l, ..self }`.  Only the outermost call is expanded, so the
+    calls a rule wants to see inside the value stay calls."""
+    from .mirlib import Expr
+    e = strip(e)
+    for _ in range(rounds):
+        if not (e[0] == "call" and isinstance(e[1], str)):
+            break
+        b = prog.bodies.get(e[1])
+        if b is None or b.get("crate") != crate or "{closure" in e[1] or (keep and re.search(keep, e[1])):
+            break
+        try:
+            rets = Expr(prog, e[1]).returns()
+        except Exception:
+            break
+        if len(rets) != 1 or len(e[2]) != b["argc"]:
+            break
+        e = strip(simplify(subst_params(rets[0], e[2])))
+    return e
